@@ -1,3 +1,5 @@
 import KpModel.Basic
 import KpModel.Db.Tree
 import KpModel.Db.TreeLemmas
+import KpModel.Db.History
+import KpModel.Io
